@@ -1,5 +1,6 @@
 import PonyVerif.Drive.Util
 import PonyVerif.Model.DbSession
+import PonyVerif.Model.DbSessionMulti
 namespace PonyVerif.Drive.C18
 open Lean PonyVerif.Drive PonyVerif.Model.DbSession
 
@@ -172,6 +173,47 @@ def reply (s : St) (out : Outcome) (attempts : Option Nat) : Json :=
     ("ncommit", .num (JsonNumber.fromNat s.ncommit)), ("trace", .arr (s.trace.map jEv).toArray)] ++
     (match attempts with | some n => [("attempts", .num (JsonNumber.fromNat n))] | none => []))
 
+/-
+  request {"op":"multi", "caches":[{"db":n,"priority":n,"pending":[..],"committed":[..]} ..]   (in the order the session touched the databases),
+           "faults":{"flush":[db..],"commit":[db..],"rollback":[db..]}, "can_commit":b}
+  reply   {"order":[db..] (_get_caches: primary first), "err":null|"commitExc"|"partialCommit"|"rollbackExc"|{"flushErr":db},
+           "dbs":[{"db":n,"committed":[..],"pending":[..],"alive":b} ..] (same order)}
+-/
+namespace Multi
+open PonyVerif.Model.DbSessionMulti
+
+def cachesOfJson (j : Json) : Except String (List Cache) := do
+  let arr ← argArr j "caches"
+  let cs ← arr.mapM (fun c => do
+    pure ({ db := ← natD c "db" 0, priority := ((← natD c "priority" 0 : Nat) : Int),
+            pending := ← natsOfJson (optField c "pending"), committed := ← natsOfJson (optField c "committed") } : Cache))
+  pure (cs.zipIdx.map (fun (c, i) => { c with num := i }))
+
+def faultsOfJson (j : Json) : Except String Faults := do
+  let fl ← natsOfJson (optField j "flush")
+  let cm ← natsOfJson (optField j "commit")
+  let rb ← natsOfJson (optField j "rollback")
+  pure { flush := fun d => fl.contains d, commit := fun d => cm.contains d, rollback := fun d => rb.contains d }
+
+def jErr : Option Err → Json
+  | none => .null
+  | some (.flushErr d) => Json.mkObj [("flushErr", .num (JsonNumber.fromNat d))]
+  | some .commitExc => .str "commitExc"
+  | some .partialCommit => .str "partialCommit"
+  | some .rollbackExc => .str "rollbackExc"
+  | some (.releaseErr d) => Json.mkObj [("releaseErr", .num (JsonNumber.fromNat d))]
+
+def handleMulti (j : Json) : Except String Json := do
+  let cs ← cachesOfJson j
+  let f ← faultsOfJson (optField j "faults")
+  let can ← boolD j "can_commit" true
+  let ordered := getCaches cs
+  let r := exitSession f can ordered
+  pure (Json.mkObj [("order", jNats (ordered.map (·.db))), ("err", jErr r.2),
+    ("dbs", .arr (r.1.map (fun c => Json.mkObj [("db", .num (JsonNumber.fromNat c.db)), ("committed", jNats c.committed),
+                                                 ("pending", jNats c.pending), ("alive", .bool c.alive)])).toArray)])
+end Multi
+
 def handle (j : Json) : Except String Json := do
   let op ← argStr j "op"
   match op with
@@ -186,5 +228,6 @@ def handle (j : Json) : Except String Json := do
     | _ =>
       let r := exec env p s
       pure (reply r.1 r.2 none)
+  | "multi" => Multi.handleMulti j
   | _ => throw s!"unknown op {op}"
 end PonyVerif.Drive.C18
